@@ -14,7 +14,7 @@ From Verif Require Import Base.Bytes Model.FindCall.
 Import ListNotations.
 Open Scope N_scope.
 
-Inductive aty := TProof | TU256 | TB32 | TU32 | TAddr | TBytes.
+Inductive aty := TProof | TU256 | TB32 | TU32 | TU8 | TAddr | TBytes.
 (* a decoded argument: [32][32]byte as 32 numbers; *big.Int, [32]byte, uint32, common.Address as a number; []byte *)
 Inductive aval := VProof (l : list N) | VNum (n : N) | VBytes (b : bytes).
 
@@ -41,6 +41,7 @@ Definition unpack_one (t : aty) (pos : nat) (data : bytes) : option aval :=
         if Nat.leb (pos + 32 * 32) (length data) then Some (VProof (words_at data pos 32)) else None
     | TU256 | TB32 => Some (VNum w)                    (* ReadInteger default case / ReadFixedBytes *)
     | TU32 => if w <=? max_u32 then Some (VNum w) else None       (* errBadUint32 *)
+    | TU8 => if w <=? 255 then Some (VNum w) else None            (* errBadUint8 *)
     | TAddr => Some (VNum (w mod two160))              (* common.BytesToAddress: the last 20 bytes *)
     | TBytes =>                                        (* lengthPrefixPointsTo *)
         let off_end := w + 32 in
@@ -133,6 +134,7 @@ Definition wt (t : aty) (v : aval) : Prop :=
   | TProof, VProof l => length l = 32%nat /\ Forall (fun x => x < two256) l
   | TU256, VNum n | TB32, VNum n => n < two256
   | TU32, VNum n => n <= max_u32
+  | TU8, VNum n => n <= 255
   | TAddr, VNum n => n < two160
   | _, _ => False
   end.
@@ -143,3 +145,43 @@ Definition encode_etrog (s : N) (p0 p1 : list N) (gi mer rer onet oaddr dnet dad
   sel_bytes s ++ abi_pack [VProof p0; VProof p1; VNum gi; VNum mer; VNum rer; VNum onet; VNum oaddr; VNum dnet; VNum daddr; VNum amount] md.
 Definition encode_pre (s : N) (p0 : list N) (idx mer rer onet oaddr dnet daddr amount : N) (md : bytes) : bytes :=
   sel_bytes s ++ abi_pack [VProof p0; VNum idx; VNum mer; VNum rer; VNum onet; VNum oaddr; VNum dnet; VNum daddr; VNum amount] md.
+
+(* ---- event logs of the bridge contract, as bridgesync/downloader.go reads them through the bindings' Parse* functions
+   (UnpackLog: the non-indexed arguments are ABI-unpacked from log.Data; none of these events has indexed arguments) ---- *)
+(* canonical encoding with the dynamic `bytes` in the middle: statics, offset, statics, then the tail *)
+Definition abi_pack_mid (s1 : list aval) (md : bytes) (s2 : list aval) : bytes :=
+  let h1 := concat (map enc_static s1) in
+  let h2 := concat (map enc_static s2) in
+  h1 ++ be 32 (N.of_nat (length h1 + 32 + length h2)) ++ h2 ++ be 32 (N.of_nat (length md)) ++ md ++ repeat 0 (pad32 (length md)).
+
+(* event BridgeEvent(uint8 leafType, uint32 originNetwork, address originAddress, uint32 destinationNetwork,
+                     address destinationAddress, uint256 amount, bytes metadata, uint32 depositCount) *)
+Definition bridge_event_tys : list aty := [TU8; TU32; TAddr; TU32; TAddr; TU256; TBytes; TU32].
+Record bridge_fields := mkBF { bf_lt : N; bf_onet : N; bf_oaddr : N; bf_dnet : N; bf_daddr : N; bf_amount : N; bf_meta : bytes; bf_dc : N }.
+(* buildBridgeEventHandler: LeafType, OriginNetwork, OriginAddress, DestinationNetwork, DestinationAddress, Amount, Metadata,
+   DepositCount of the Bridge are the event's fields of the same name *)
+Definition decode_bridge_event (data : bytes) : option bridge_fields :=
+  match abi_unpack bridge_event_tys data with
+  | Some [VNum lt; VNum onet; VNum oaddr; VNum dnet; VNum daddr; VNum amount; VBytes md; VNum dc] =>
+      Some (mkBF lt onet oaddr dnet daddr amount md dc)
+  | _ => None
+  end.
+Definition encode_bridge_event (f : bridge_fields) : bytes :=
+  abi_pack_mid [VNum (bf_lt f); VNum (bf_onet f); VNum (bf_oaddr f); VNum (bf_dnet f); VNum (bf_daddr f); VNum (bf_amount f)]
+               (bf_meta f) [VNum (bf_dc f)].
+Definition bridge_fields_ok (f : bridge_fields) : Prop :=
+  bf_lt f <= 255 /\ bf_onet f <= max_u32 /\ bf_oaddr f < two160 /\ bf_dnet f <= max_u32 /\ bf_daddr f < two160 /\
+  bf_amount f < two256 /\ bf_dc f <= max_u32 /\ N.of_nat (length (bf_meta f)) < two256.
+
+(* event ClaimEvent(uint256 globalIndex, uint32 originNetwork, address originAddress, address destinationAddress, uint256 amount) *)
+Definition claim_event_tys : list aty := [TU256; TU32; TAddr; TAddr; TU256].
+Record claim_fields := mkCF { cf_gi : N; cf_onet : N; cf_oaddr : N; cf_daddr : N; cf_amount : N }.
+Definition decode_claim_event (data : bytes) : option claim_fields :=
+  match abi_unpack claim_event_tys data with
+  | Some [VNum gi; VNum onet; VNum oaddr; VNum daddr; VNum amount] => Some (mkCF gi onet oaddr daddr amount)
+  | _ => None
+  end.
+Definition encode_claim_event (f : claim_fields) : bytes :=
+  concat (map enc_static [VNum (cf_gi f); VNum (cf_onet f); VNum (cf_oaddr f); VNum (cf_daddr f); VNum (cf_amount f)]).
+Definition claim_fields_ok (f : claim_fields) : Prop :=
+  cf_gi f < two256 /\ cf_onet f <= max_u32 /\ cf_oaddr f < two160 /\ cf_daddr f < two160 /\ cf_amount f < two256.
